@@ -2038,11 +2038,18 @@ End Striping.
 
     [cuckoo_linearizable_statement] / [cuckoo_nodup_statement] quantify over both policies.  Proved above: the
     lock-striping policy (cuckoo::striping<>), for every schedule, any number of threads, any client programs,
-    including concurrent relocations and resizes.  Missing: the refinable policy (cuckoo::refinable<>), whose
-    acquire() / acquire_resize() owner protocol and lock-array replacement are in the model (Model/CuckooConc.v,
-    covered by step correspondence and by the lincheck'ed harness histories) but whose invariant — the combination
-    of [StripedConcRefInv] (owner word, generations of the lock arrays) with the nested reentrant locks of this file
-    — has not been carried through. *)
+    including concurrent relocations and resizes.
+
+    For the refinable policy (cuckoo::refinable<>) the lock / ownership protocol is proved for every schedule of the
+    whole model in [CuckooConcRefInv.v] / [CuckooConcRefProofs.v] (invariant [CoreR]: reentrant cell locks of
+    several generations of lock arrays, owner word, capacity word, m_access; theorems
+    [cuckoo_refinable_owner_excludes_thm], [cuckoo_refinable_valid_stable_thm], [cuckoo_refinable_cs_exclusive_thm]:
+    a thread that returned from acquire() holds cells of the current arrays, no other thread is the exclusive
+    owner, critical sections on a probe set exclude each other).  What is still missing for the two statements
+    below under that policy is the combination of [CoreR] with the probe-set part of [Core] of this file
+    (snapshots [v_mask] / [v_reg] refreshed at the validation step of acquire() and when the resizer becomes
+    exclusive, [has0] := validated or exclusive, [auth] := [cell_auth]) and the replay of the specifications of this
+    file against the combined invariant; the linearization points are the same. *)
 Definition cuckoo_linearizable_statement : Prop :=
   forall cf, 0 < c_nl cf ->
   forall ths (c : Conc.config G V ev), Conc.reach (init_cfg cf ths) c ->
